@@ -219,7 +219,7 @@ func confirmChain(c *Ctx, fn *ssa.Function, t ssa.Instruction) (bool, string) {
 		}
 		if guard == nil {
 			for _, g := range exitGuardsCached(fn) {
-				if !g.Head.Dominates(t.Block()) || g.Head == t.Block() || g.Exit.Dominates(t.Block()) || !rd.Block().Dominates(g.Head) {
+				if !g.Head.Dominates(t.Block()) || g.Head == t.Block() || g.Exit.Dominates(t.Block()) || !rd.Block().Dominates(g.Head) || insideChain(g, t.Block()) {
 					continue
 				}
 				all := true
